@@ -159,7 +159,7 @@ func (r *Run) oracleC04() {
 			}
 		}
 		n := rejections[v.Stamps]
-		if r.keepUp() && r.sc.GlobalCB != "block" && matches != n {
+		if r.keepUp() && r.sc.GlobalCB != "block" && !r.sc.NoGlobalCB && matches != n {
 			r.fail("C04.on-watched-error", "the stack %v was rejected %d time(s), first at step %d; OnWatchedError was called %d times for it (callbacks kept up: occupancy bound %d)", v.Stamps, n, v.Step, matches, r.maxQueue)
 		}
 		if matches > n {
@@ -182,6 +182,35 @@ func (r *Run) oracleC04() {
 		}
 		if r.installs[idx].Step > cb.Enter {
 			r.fail("C04.on-watched-error", "OnWatchedError(%v) got an oldConfig installed only later", cb.Err)
+		}
+	}
+	// a stacking failure is reported to OnWatchedError (newConfig nil) unless the
+	// callback queue overflowed; while delayed with the suppress option set the
+	// state is left to C09's oracles
+	if r.keepUp() && r.sc.GlobalCB != "block" && !r.sc.NoGlobalCB {
+		firstOK := 0
+		for _, op := range r.ops {
+			if op.K == "enable" && op.Return != 0 && op.Err == nil && (firstOK == 0 || op.Return < firstOK) {
+				firstOK = op.Return
+			}
+		}
+		for _, op := range r.ops {
+			if op.K != "breport" || op.Return == 0 || op.Err == nil || isCtxErr(op.Err) || errors.Is(op.Err, errVerify) {
+				continue
+			}
+			if r.sc.Delay && r.sc.Suppress && (firstOK == 0 || op.Invoke <= firstOK || ctxErrEnable) {
+				continue
+			}
+			found := false
+			for _, cb := range r.cbs {
+				if cb.Kind == "err" && !cb.HasNew && cb.Enter >= op.Invoke && cb.Err != nil && strings.Contains(cb.Err.Error(), "Iface") {
+					found = true
+				}
+			}
+			if !found {
+				r.fail("C04.on-watched-error", "%s op %d: the update failed to stack (%v) but OnWatchedError was never given that error although callbacks kept up", op.Client, op.Idx, op.Err)
+			}
+			r.probe("stack-failure-reported")
 		}
 	}
 	// blocking reports of rejected stacks return the error
@@ -244,7 +273,7 @@ func (r *Run) oracleC06() {
 		return
 	}
 	keep := r.keepUp()
-	suppressEver := r.sc.Delay && r.sc.Suppress
+	suppressEver := r.sc.Delay && r.sc.Suppress || r.sc.NoGlobalCB // the global callback does not show every announcement
 	// (a) serialized
 	for i := 1; i < len(r.cbs); i++ {
 		p, c := r.cbs[i-1], r.cbs[i]
@@ -392,10 +421,12 @@ func (r *Run) oracleC06() {
 			}
 		}
 		if keep && !unregTried && r.sc.GlobalCB != "block" {
+			// a handle registered with the serial of a version must end up with
+			// the final version whichever way round registration and events were
+			// processed (ordinary calls, or a catch-up to the last announced one);
+			// with the zero serial only what is installed after RegisterCallback
+			// returned is owed
 			lo := h.serial
-			if h.kAfter > lo {
-				lo = h.kAfter
-			}
 			if h.zero {
 				lo = h.kAfter
 			}
@@ -405,7 +436,7 @@ func (r *Run) oracleC06() {
 				} else if last != final.Serial {
 					r.fail("C06.skip", "handle %d last received serial %d but serial %d was installed and callbacks kept up", h.id, last, final.Serial)
 				}
-				if len(calls) > 0 {
+				if len(calls) > 0 && h.zero {
 					first := serialOfPtr(r, calls[0].New)
 					if first > lo+1 && calls[0].Old == r.pred(r.byPtr[calls[0].New]) {
 						r.fail("C06.skip", "handle %d: first (ordinary) call delivered serial %d, but serial %d was installed after the registration", h.id, first, lo+1)
@@ -652,7 +683,7 @@ func (r *Run) oracleC09() {
 		}
 		return true, false
 	}
-	keep := r.keepUp() && r.sc.GlobalCB != "block"
+	keep := r.keepUp() && r.sc.GlobalCB != "block" && !r.sc.NoGlobalCB
 	called := map[int]bool{}
 	for _, cb := range r.cbs {
 		if cb.Kind == "new" {
